@@ -110,7 +110,7 @@ impl<'a> Docs<'a> {
 
     /// contents of one file / stdin, by class
     pub fn content(&mut self) -> Bytes {
-        let w = [22u32, 34, 9, 3, 3, 5, 4, 4, 3, 4, 5, 4, 5, 3, 3, 4];
+        let w = [22u32, 34, 9, 3, 3, 5, 4, 4, 3, 4, 5, 4, 5, 3, 3, 4, 3];
         match self.rng.weighted(&w) {
             0 => self.formatted(self.main_cfg).into(),
             1 => self.fresh_doc(0.7).into(),
@@ -248,6 +248,26 @@ impl<'a> Docs<'a> {
                     s.push('\n');
                 }
                 s.into()
+            }
+            16 => {
+                // families on which one formatting pass is known not to reach a fixed point (a term
+                // or list item whose body starts with a comment line, at small tab widths; a call
+                // whose only argument is multi-line raw text with trailing blanks near the width
+                // limit): a front-end must yield exactly one pass of the library, not "settle"
+                let id = self.counter;
+                self.counter += 1;
+                match self.rng.below(4) {
+                    0 => format!("/ term{}: zqni{}x{}\n  // note\n  body\n", id, self.seed % 9973, id).into(),
+                    1 => format!("- // note\n  item zqni{}x{}\n", self.seed % 9973, id).into(),
+                    2 => {
+                        let pad = "x".repeat(self.rng.range(40, 75));
+                        format!("#raw(\"{}   \n second line zqni{}x{}  \")\n", pad, self.seed % 9973, id).into()
+                    }
+                    _ => {
+                        let pad = "y".repeat(self.rng.range(50, 62));
+                        format!("#f(```\n{}   \nzqni{}x{}\n```)\n", pad, self.seed % 9973, id).into()
+                    }
+                }
             }
             _ => {
                 // (class 11) unformatted but tiny
@@ -669,6 +689,47 @@ pub fn gen_edit(rng: &mut Rng, tree: &Tree, docs: &mut Docs) -> Option<Edit> {
 /// of two gives the last document the first one's attributes.
 fn gen_wraparound_case(seed: u64, profile: &str, params: &GenParams) -> Case {
     let mut rng = Rng::stream(seed, "wraparound");
+    // a couple of cases per run (4 s each): more inputs in one process than a 16-bit
+    // identifier can number (65 600 distinct paths in one `-i` list)
+    if rng.chance(0.02) || std::env::var_os("VSIM_FORCE_HUGE").is_some() {
+        let k = 65_600usize;
+        let mut tree = Tree::new();
+        tree.insert("w".into(), Node::Dir);
+        let mut paths = Vec::with_capacity(k);
+        for i in 0..k {
+            let name = format!("{:x}.typ", i);
+            tree.insert(format!("w/{}", name), Node::File("#let   a=1\n".into()));
+            paths.push(name);
+        }
+        let mode = if params.focus == Focus::C14 { Mode::Check } else { Mode::Inplace };
+        let inv = Inv { shape: Shape::Files { mode, paths }, style: StyleArgs::default(), verbosity: 1, check_after: false, cwd: "w".into(), stdin: None, plan: Vec::new(), shim_seed: 1, readdir: "sorted".into(), env: Vec::new() };
+        return Case { seed, profile: "nofault".to_string(), tree, steps: vec![Step::Inv(inv)] };
+    }
+    if rng.chance(0.25) {
+        // every input fails: the number of failures is exactly a power of two (a status or a
+        // counter that is a truncated count reads as "no failure")
+        let k = *rng.pick(&[256usize, 256, 512, 255, 257]);
+        let mut tree = Tree::new();
+        tree.insert("w".into(), Node::Dir);
+        let by_walk = rng.chance(0.4);
+        let mut paths = Vec::new();
+        for i in 0..k {
+            let key = format!("w/m{:03}.typ", i);
+            if by_walk {
+                // eligible files that are not valid UTF-8
+                tree.insert(key.clone(), Node::File(crate::util::Bytes(vec![b'#', 0xff, 0xfe, b'\n'])));
+            }
+            paths.push(key);
+        }
+        let check = params.focus == Focus::C14 || (params.focus == Focus::Mixed && rng.chance(0.5));
+        let shape = if by_walk {
+            Shape::FormatAll { check, dir: Some("w".into()), inplace: false }
+        } else {
+            Shape::Files { mode: if check { Mode::Check } else { Mode::Inplace }, paths }
+        };
+        let inv = Inv { shape, style: StyleArgs::default(), verbosity: 1, check_after: false, cwd: ".".into(), stdin: None, plan: Vec::new(), shim_seed: rng.next_u64() >> 1, readdir: "sorted".into(), env: Vec::new() };
+        return Case { seed, profile: profile.to_string(), tree, steps: vec![Step::Inv(inv)] };
+    }
     let k = *rng.pick(&[65usize, 129, 256, 257, 257]);
     // variant: every document differs (counters of changed files at and beyond a power of two)
     let all_differ = rng.chance(0.3);
@@ -714,7 +775,7 @@ fn gen_wraparound_case(seed: u64, profile: &str, params: &GenParams) -> Case {
 /// needs the model's view of the invocation)
 pub fn gen_case(seed: u64, profile: &str, params: &GenParams, oracle: &mut Oracle) -> Case {
     let mut rng = Rng::stream(seed, "workload");
-    if Rng::stream(seed, "case-kind").chance(0.003) {
+    if Rng::stream(seed, "case-kind").chance(0.003) || std::env::var_os("VSIM_FORCE_HUGE").is_some() {
         return gen_wraparound_case(seed, profile, params);
     }
     let main_style = gen_cfg(&mut Rng::stream(seed, "main-style"));
